@@ -532,7 +532,7 @@ class ndarray:
     def _inplace(self, op, o):
         r = _binop(op, self, o)
         if RANK.get(r._tag, 9) > RANK.get(self._tag, 9):
-            raise TypeError(f"Cannot cast ufunc '{op}' output from dtype('{r.dtype.name}') to "
+            raise UFuncTypeError(f"Cannot cast ufunc '{op}' output from dtype('{r.dtype.name}') to "
                             f"dtype('{self.dtype.name}') with casting rule 'same_kind'")
         event('write', self.base_id())
         tag = self._tag
@@ -593,6 +593,10 @@ class ndarray:
 
 
 class _SymIndex(Exception):
+    pass
+
+
+class UFuncTypeError(TypeError):
     pass
 
 
